@@ -398,6 +398,101 @@ pub fn coherent(a: &AV, b: &AV) -> bool {
     }
 }
 
+/// Is `r`, decoded at the supertype `t`, what the value `s` of a subtype looks like at `t`?
+/// Exact except for options, which may have turned into "absent" (the spec allows that
+/// whenever the constituent does not fit), and for fields the supertype does not have.
+/// `unordered`: the receiver is a host set/map, which may reorder and deduplicate.
+pub fn coerced(env: &SEnv, s: &AV, r: &AV, t: &SType, unordered: bool) -> Result<(), String> {
+    let t = env.unfold(t);
+    let bad = |what: &str| Err(format!("{what}: sent {} but received {} at {}", s.brief(), r.brief(), show_type(t)));
+    match t {
+        SType::Prim(Prim::Reserved) => Ok(()),
+        SType::Prim(Prim::Int) => match (s, r) {
+            (AV::Int(a), AV::Int(b)) | (AV::Nat(a), AV::Int(b)) if a == b => Ok(()),
+            _ => bad("number changed"),
+        },
+        // a service reference is its principal
+        SType::Prim(Prim::Principal) if matches!((s, r), (AV::Service(a), AV::Principal(b)) if a == b) => Ok(()),
+        SType::Prim(_) | SType::Func { .. } | SType::Service(_) => {
+            if s == r {
+                Ok(())
+            } else {
+                bad("value changed")
+            }
+        }
+        SType::Opt(inner) => match r {
+            AV::Opt(None) => Ok(()),
+            AV::Opt(Some(y)) => match s {
+                AV::Opt(Some(x)) => coerced(env, x, y, inner, unordered),
+                AV::Opt(None) | AV::Null | AV::Reserved => bad("a present option out of an absent one"),
+                x => coerced(env, x, y, inner, unordered),
+            },
+            _ => bad("not an option"),
+        },
+        SType::Vec(inner) => {
+            let (AV::Vec(xs), AV::Vec(ys)) = (s, r) else { return bad("not a vector") };
+            if xs.len() == ys.len() && xs.iter().zip(ys.iter()).all(|(x, y)| coerced(env, x, y, inner, unordered).is_ok()) {
+                return Ok(());
+            }
+            if !unordered {
+                if xs.len() != ys.len() {
+                    return bad("vector length changed");
+                }
+                for (x, y) in xs.iter().zip(ys.iter()) {
+                    coerced(env, x, y, inner, unordered)?;
+                }
+                return Ok(());
+            }
+            // every received element is some sent element, each sent element used at most once
+            if ys.len() > xs.len() {
+                return bad("more elements than were sent");
+            }
+            let mut used = vec![false; xs.len()];
+            'outer: for y in ys {
+                for (i, x) in xs.iter().enumerate() {
+                    if !used[i] && coerced(env, x, y, inner, unordered).is_ok() {
+                        used[i] = true;
+                        continue 'outer;
+                    }
+                }
+                return Err(format!("element {} was never sent; sent {}", y.brief(), s.brief()));
+            }
+            Ok(())
+        }
+        SType::Record(fs) => {
+            let (AV::Record(xs), AV::Record(ys)) = (s, r) else { return bad("not a record") };
+            if ys.len() != fs.len() {
+                return bad("record fields differ from the type");
+            }
+            for ((l, ft), (j, y)) in fs.iter().zip(ys.iter()) {
+                if l.id() != *j {
+                    return bad("record fields differ from the type");
+                }
+                match xs.iter().find(|(i, _)| i == j) {
+                    Some((_, x)) => coerced(env, x, y, ft, unordered)?,
+                    None => {
+                        if !matches!(y, AV::Null | AV::Opt(None) | AV::Reserved) {
+                            return bad("a field that was never sent has a value");
+                        }
+                    }
+                }
+            }
+            Ok(())
+        }
+        SType::Variant(fs) => {
+            let (AV::Variant(i, x), AV::Variant(j, y)) = (s, r) else { return bad("not a variant") };
+            if i != j {
+                return bad("variant case changed");
+            }
+            match fs.iter().find(|(l, _)| l.id() == *j) {
+                Some((_, ft)) => coerced(env, x, y, ft, unordered),
+                None => bad("variant case not in the type"),
+            }
+        }
+        SType::Name(_) => bad("unbound name"),
+    }
+}
+
 // ---------------------------------------------------------------- own printer
 
 const KEYWORDS: [&str; 36] = [
